@@ -323,6 +323,11 @@ class StmtMixin:
 
     def st_Assert(self, st, fr):
         c = self.truth(self.ev(st.test, fr), fr, st)
+        if self.contract.opts.get('asserts_are_checks'):
+            # the assertion is a run-time check of this function (its failure is an exception the contract talks about)
+            if not self.run.decide(c, f'assert@{st.lineno}'):
+                self.raise_('AssertionError', st)
+            return
         self.run.oblige(f'assert@{st.lineno}', c, kind='assert', lineno=st.lineno)
         self.run.assume(c)
 
@@ -518,6 +523,11 @@ class StmtMixin:
                 if z3.is_int_value(n):
                     return ('concrete', [SV(sym.simp(s[i])) for i in range(n.as_long())])
                 return ('sym', n, lambda i: SV(s[i]), s)
+            if k == 'walk':
+                # result of the tree walk (contract of nodes_with_paths): node identities in `a` (ListT), paths given by a ghost function
+                l, pathfn = it.a, it.b
+                n = sym.simp(l.len)
+                return ('sym', n, lambda i, l=l: TupleV([PathV(pathfn(sym.r_of(z3.Select(l.item, i)))), SV(z3.Select(l.item, i))]), l)
             if k == 'lazygen':
                 self.unsupported(node, 'iteration over a generator expression')
             self.unsupported(node, f'iteration over {k}')
